@@ -157,6 +157,13 @@ fn run(input: RunInput) -> ScenFuture {
                 w.harness_error("setup connect failed");
             }
         }
+        // the application may ban a peer that is connected right now (affinity Never in the table):
+        // that governs future arrivals; the connectivity checks that run from now on, and the
+        // shutdown, deal with a connected peer whose entry says Never
+        if w.flag("a_connected_peer_is_reclassified_never", 0.25) {
+            s.net.known_peers().insert(PeerInfo { peer_id: peers[0].peer_id, affinity: PeerAffinity::Never, address: vec![] });
+            w.probe("connected-peer-with-affinity-never");
+        }
         sleep_ms(50).await;
         let mut link = LinkCfg::clean(200, lat_max);
         if lossy {
